@@ -80,6 +80,16 @@ func init() {
 					}
 				}
 			}
+			// package names with upper-case letters, digits first, dots and plus signs
+			for _, f := range Formats {
+				for _, name := range []string{"libFoo", "LIB", "7zip", "a.b+c_d", "Ab-Cd"} {
+					c := baseMeta()
+					c.Name, c.Release = name, "2"
+					if !yield(C15Case{Part: "name", Format: f, Cfg: c}) {
+						return
+					}
+				}
+			}
 			// release values at the edge of what a format takes as a number
 			for _, f := range Formats {
 				for _, rel := range []string{"0", "00", "-1", "007", "1.5", "r2", "2rc", " 3"} {
@@ -146,7 +156,7 @@ func init() {
 				}
 			}
 			for _, f := range Formats {
-				for _, tg := range []string{"file", "dir", "empty", "foreign-ext", "nested-missing-dir", "file-noext", "file-dotted-dir", "dir-symlink", "dir-trailing-slash", "file-symlink", "file-dollar", "dir-dollar"} {
+				for _, tg := range []string{"file", "dir", "empty", "foreign-ext", "nested-missing-dir", "file-noext", "file-dotted-dir", "dir-symlink", "dir-trailing-slash", "file-symlink", "file-dollar", "dir-dollar", "dir-dotted"} {
 					for _, wp := range []bool{true, false} {
 						for _, pre := range []string{"", "rc1"} {
 							c := baseMeta()
@@ -383,6 +393,12 @@ func checkC15(env *engine.Env, ci any) engine.Outcome {
 	case "dir-dollar":
 		os.Mkdir(filepath.Join(work, "out-$HOME"), 0o755)
 		target = filepath.Join(work, "out-$HOME")
+		wantPath, wantFormat = filepath.Join(target, conv), f
+		wantFail = !c.WithP
+	case "dir-dotted":
+		// an existing directory whose name looks like it had an extension
+		os.Mkdir(filepath.Join(work, "dist-1.2"), 0o755)
+		target = filepath.Join(work, "dist-1.2")
 		wantPath, wantFormat = filepath.Join(target, conv), f
 		wantFail = !c.WithP
 	case "file-noext":
